@@ -37,9 +37,9 @@ Theorem c11_sockets_closed : forall cs, s_m (fst (run init cs)) = MReturned ->
 Proof. exact sockets_closed. Qed.
 Print Assumptions c11_sockets_closed.
 
-(* wait-group accounting: the counter is always the call itself plus the writer goroutines that
-   have executed wg.Add(1) and not yet wg.Done(); it never goes negative; after the return it
-   counts exactly the started, unfinished writers *)
+(* wait-group accounting: the counter is always the call itself plus the writer AND watcher
+   goroutines (one of each per connection, c_w / c_x) that are registered and have not yet executed
+   wg.Done(); it never goes negative; after the return it counts exactly those *)
 Theorem c11_wg_accounting : forall cs,
   let s := fst (run init cs) in
   s_wg s = main_c (s_m s) + count_started (s_cs s) /\ 0 <= s_wg s /\
@@ -55,7 +55,7 @@ Print Assumptions c11_wg_accounting.
 Theorem c11_wg_drains : forall cs,
   let s := fst (run init cs) in
   s_wg s = 0 -> s_m s <> MStart ->
-  s_m s = MReturned /\ Forall (fun c => c_w c = WDone) (s_cs s).
+  s_m s = MReturned /\ Forall (fun c => c_w c = WDone /\ c_x c = WDone) (s_cs s).
 Proof. exact wg_drains. Qed.
 Print Assumptions c11_wg_drains.
 
@@ -65,12 +65,12 @@ Print Assumptions c11_wg_drains.
    of a lost connection has not yet run - it then Adds on the drained group.  Confirmed on the
    real code through the verif hook (/repo fd89801, scenario wg-writer-held: wg.Wait() returned
    at 1062 ms, the goroutine finished at 1602 ms).  In the repaired system the same schedule
-   leaves the counter at 1. *)
+   leaves the counter at 2 (writer and watcher registered, neither has run). *)
 Example c11_legacy_wg_gap :
   let s := fst (run_legacy init wg_gap_schedule) in
   s_m s = MReturned /\ s_wg s = 0 /\ (exists c, In c (s_cs s) /\ c_w c = WNotStarted) /\
   s_wg (fst (run_legacy init (wg_gap_schedule ++ [CWriter 0 WNone]))) = 1 /\
-  s_wg (fst (run init wg_gap_schedule)) = 1.
+  s_wg (fst (run init wg_gap_schedule)) = 2.
 Proof. exact legacy_wg_gap. Qed.
 
 
